@@ -95,9 +95,9 @@ CoClassGen(order, cyclic, cls) ==
 \* ---- configurations
 PtsH(a0, b, c) == LET a == a0 + SaltValue IN ((a * 13 + b * 7 + c * 5 + a * b) % 7) - 3
 Configs ==
-    {[model |-> "ising", d |-> d, J |-> J, h |-> h] : d \in 2..(IF Level = 1 THEN 4 ELSE 6), J \in {1, -2}, h \in {0, 3}}
-    \cup {[model |-> "exciton", n |-> n, alpha |-> a, beta |-> b] : n \in 2..(IF Level = 1 THEN 4 ELSE 5), a \in {1, 3}, b \in {-1, 2}}
-    \cup {[model |-> m, n |-> n] : m \in {"qft", "iqft"}, n \in 1..(IF Level = 1 THEN 4 ELSE 6)}
+    {[model |-> "ising", d |-> d, J |-> J, h |-> h] : d \in 2..(IF Level = 1 THEN 5 ELSE 6), J \in {1, -2}, h \in {0, 3}}
+    \cup {[model |-> "exciton", n |-> n, alpha |-> a, beta |-> b] : n \in 2..(IF Level = 1 THEN 5 ELSE 6), a \in {1, 3}, b \in {-1, 2}}
+    \cup {[model |-> m, n |-> n] : m \in {"qft", "iqft"}, n \in 1..(IF Level = 1 THEN 6 ELSE 7)}
     \cup {[model |-> "fpu", d |-> d, x |-> [k \in 1..d |-> PtsH(seed, k, d)]] : d \in 2..(IF Level = 1 THEN 4 ELSE 6), seed \in 1..3}
     \cup {[model |-> "kuramoto", d |-> d, w |-> [k \in 1..d |-> PtsH(seed, k, 1)], s |-> [k \in 1..d |-> PtsH(seed, k, 2)],
            c |-> [k \in 1..d |-> PtsH(seed + 1, k, 3)]] : d \in 2..(IF Level = 1 THEN 5 ELSE 8), seed \in 1..3}
@@ -105,13 +105,13 @@ Configs ==
     \cup {[model |-> k, dim |-> dim, level |-> lv] : k \in {"multisponge", "vicsek"}, dim \in 2..3, lv \in 1..(IF Level = 1 THEN 2 ELSE 3)}
     \cup {[model |-> "rgb", n |-> n, level |-> lv, seed |-> seed] : n \in 2..3, lv \in 1..(IF Level = 1 THEN 2 ELSE 3), seed \in 1..2}
     \* structural checks only: the size / parameter grid is fixed here
-    \cup {[model |-> "co_generator", order |-> o, cyclic |-> cy, kexp |-> ke] : o \in 2..(IF Level = 1 THEN 4 ELSE 6), cy \in BOOLEAN, ke \in {-2, 0, 4}}
-    \cup {[model |-> "cascade", d |-> d] : d \in 2..(IF Level = 1 THEN 2 ELSE 4)}
+    \cup {[model |-> "co_generator", order |-> o, cyclic |-> cy, kexp |-> ke] : o \in 2..(IF Level = 1 THEN 5 ELSE 6), cy \in BOOLEAN, ke \in {-2, 0, 4}}
+    \cup {[model |-> "cascade", d |-> d] : d \in 2..(IF Level = 1 THEN 3 ELSE 4)}
     \cup {[model |-> "toll", lanes |-> l, cars |-> c] : l \in 2..(IF Level = 1 THEN 3 ELSE 4), c \in 1..(IF Level = 1 THEN 2 ELSE 3)}
-    \cup {[model |-> "twostep", m |-> m, k |-> k] : m \in 1..(IF Level = 1 THEN 2 ELSE 3), k \in {<<1, 2, 1>>, <<3, 1, 5>>}}
-    \cup {[model |-> "qfa"]} \cup {[model |-> "qfan", k |-> k] : k \in 2..(IF Level = 1 THEN 2 ELSE 3)}
+    \cup {[model |-> "twostep", m |-> m, k |-> k] : m \in 1..(IF Level = 1 THEN 3 ELSE 4), k \in {<<1, 2, 1>>, <<3, 1, 5>>}}
+    \cup {[model |-> "qfa"]} \cup {[model |-> "qfan", k |-> k] : k \in 2..(IF Level = 1 THEN 3 ELSE 4)}
     \cup {[model |-> "shor", a |-> a] : a \in {2, 4, 7, 8, 11, 13, 14}}
-    \cup {[model |-> m, n |-> n, unitary |-> TRUE] : m \in {"qft_groups", "iqft_groups"}, n \in 1..(IF Level = 1 THEN 4 ELSE 6)}
+    \cup {[model |-> m, n |-> n, unitary |-> TRUE] : m \in {"qft_groups", "iqft_groups"}, n \in 1..(IF Level = 1 THEN 6 ELSE 7)}
 
 CfgIx(c) == Len(c.model) * 3 + (IF "d" \in DOMAIN c THEN c.d ELSE 0) + (IF "n" \in DOMAIN c THEN c.n * 5 ELSE 0)
             + (IF "level" \in DOMAIN c THEN c.level * 7 ELSE 0) + (IF "dim" \in DOMAIN c THEN c.dim ELSE 0) + (IF "order" \in DOMAIN c THEN c.order ELSE 0)
